@@ -1074,7 +1074,19 @@ impl<T: Transport + 'static> SyncEngine<T> {
                             }
                         }
 
-                        match transferrer.delete(&task.dest_path, is_dir).await {
+                        // An entry that is already gone (removed together with its parent
+                        // directory by another delete task of this run) is deleted, not failed
+                        let delete_result = match transferrer.delete(&task.dest_path, is_dir).await
+                        {
+                            Err(crate::error::SyncError::Io(ref e))
+                                if e.kind() == std::io::ErrorKind::NotFound =>
+                            {
+                                Ok(())
+                            }
+                            other => other,
+                        };
+
+                        match delete_result {
                             Ok(_) => {
                                 {
                                     let mut stats = stats.lock().unwrap();
